@@ -51,6 +51,8 @@ class TransportAsyncWebsocketsClient(AbstractMessagingTransport):
             logger().debug('Asyncio task canceled: incoming_data_listener')
         except Exception:
             self._incoming_frame_queue.put_nowait(RSocketTransportError())
+        finally:
+            self._incoming_frame_queue.put_nowait(RSocketTransportError())
 
     async def send_frame(self, frame: Frame):
         with wrap_transport_exception():
